@@ -140,7 +140,12 @@ class Canon:
         if k == "Match":
             scr = self.expr(e["scrut"])
             arms = tuple((self.pat(a["pat"]), self.expr(a["guard"]) if "guard" in a else None, self.expr(a["body"])) for a in e["arms"])
-            return ("match", e.get("src") if e.get("src") != "Normal" else None, scr, arms)
+            src = e.get("src")
+            if src == "Normal":
+                src = None
+            elif src and src.startswith("TryDesugar"):
+                src = "TryDesugar"
+            return ("match", src, scr, arms)
         if k == "Loop":
             return ("loop", e.get("src"), self.block(e["b"]))
         if k == "Closure":
